@@ -6,6 +6,13 @@ TB = ("Trusted: Lean 4.33.0 kernel (axioms ≤ propext, Classical.choice, Quot.s
 
 # id -> dict(level, technique, text, note, assumptions, design_ref, explain)
 PROPS = {
+ "C05": dict(
+    level="proof",
+    technique="Lean 4 invariant proofs over a labelled transition system of operations.go (every interleaving of any number of enqueuers, Done/GracefulClose callers and workers) + schedule-controlled trace validation of the real queue through verifYield hooks",
+    text="operations.go is modelled as a transition system whose actions are its lock-delimited critical sections (tryEnqueue, pop, entering fn, the negotiation-flag test, the deferred hand-off block, Done's waiter enqueue / wg.Wait / closed-queue drain wait, GracefulClose's close + waitUntilIdle loop). Workers are a list that tryEnqueue and the hand-off append to, so 'one item at a time' (C05_single_worker), queue order and at-most-once (C05_fifo: accepted = executed ++ held ++ queue; C05_at_most_once), exactly-once / nothing stranded (C05_exactly_once, C05_no_strand), Done-after-predecessors over a ghost snapshot (C05_done_after_predecessors, C05_done_snapshot), nothing accepted after close and close-returns-after-drain (C05_nothing_accepted_after_close, C05_close_returns_after_drain) are invariants proved by induction over Reachable, i.e. for every interleaving and any number of threads. The tie to the code is trace validation: seeded programs (1–3 enqueuers incl. ops that enqueue children, Done callers, a GracefulClose caller with late enqueues, flag setter) run on the real queue under a cooperative scheduler that releases one goroutine per lock-delimited segment; the Lean simulator, which only ever applies the proved core actions, must reproduce the observed trace, execution log and final thread states exactly, and the Lean judge re-evaluates exactly-once / order / Done / close clauses on the observed log.",
+    note=TB + "Go's mutex, channel close and WaitGroup are assumed linearizable; a panicking operation is not modelled. Two genuine defects were repaired first (fix: commits 354a86d, e7da7ea) and the model mirrors the repaired code.",
+    assumptions=["sync.Mutex / channel close / WaitGroup are linearizable", "operations do not panic", "each closure is enqueued once (fresh ids)"],
+    design_ref="§6 C05"),
  "C22": dict(
     level="proof",
     technique="Lean 4 theorems over a model of updateConnectionState (full case analysis of the finite table; list induction for notification sequences) + exhaustive differential correspondence on all raw inputs",
